@@ -124,6 +124,37 @@ func c01Edits() []c01Edit {
 			}
 			return ""
 		}},
+		{"Extensions-edit-SNI", func(u *tls.UConn) error { // the extension object edited directly, Config.ServerName left alone
+			for _, e := range u.Extensions {
+				if a, ok := e.(*tls.SNIExtension); ok {
+					a.ServerName = "c.example"
+					return nil
+				}
+			}
+			return fmt.Errorf("skip")
+		}, func(h *wire.Hello) string {
+			e := h.Find(0)
+			if e == nil || len(e.Body) < 5 || string(e.Body[5:]) != "c.example" {
+				return "SNI written into the extension object is not the one on the wire"
+			}
+			return ""
+		}},
+		{"Extensions-edit-sigalgs", func(u *tls.UConn) error {
+			for _, e := range u.Extensions {
+				if a, ok := e.(*tls.SignatureAlgorithmsExtension); ok && len(a.SupportedSignatureAlgorithms) > 3 {
+					a.SupportedSignatureAlgorithms = append([]tls.SignatureScheme{}, a.SupportedSignatureAlgorithms[:len(a.SupportedSignatureAlgorithms)-1]...)
+					a.SupportedSignatureAlgorithms = append(a.SupportedSignatureAlgorithms, 0x0f0f)
+					return nil
+				}
+			}
+			return fmt.Errorf("skip")
+		}, func(h *wire.Hello) string {
+			e := h.Find(13)
+			if e == nil || len(e.Body) < 4 || e.Body[len(e.Body)-2] != 0x0f || e.Body[len(e.Body)-1] != 0x0f {
+				return "signature algorithm 0x0f0f written into the extension object is not last on the wire"
+			}
+			return ""
+		}},
 		{"BuildHandshakeState-again", func(u *tls.UConn) error { return u.BuildHandshakeState() }, nil},
 	}
 }
@@ -266,12 +297,18 @@ func c01Scenario(clients []gridClient, depth int) *explore.Scenario {
 					if k == "Extensions" {
 						k = e.name
 					}
+					if e.name == "SetSNI" || e.name == "Extensions-edit-SNI" {
+						k = "SNI"
+					}
 					last[k] = i
 				}
 				for i, e := range seq {
 					k := strings.SplitN(e.name, "-", 2)[0]
 					if k == "Extensions" {
 						k = e.name
+					}
+					if e.name == "SetSNI" || e.name == "Extensions-edit-SNI" {
+						k = "SNI"
 					}
 					if e.visible == nil || last[k] != i {
 						continue
@@ -330,7 +367,7 @@ func c01Scenarios(thorough bool) []*explore.Scenario {
 func init() {
 	register(&Prop{ID: "C01", Level: "model_checking", Variant: "A", Scenarios: c01Scenarios,
 		Run: func(c *explore.Check, thorough bool) {
-			c.Rule = "every non-Golang ID, randomized seeds and custom specs (+ fingerprinted copies in thorough) x every sequence of <=2 (3) documented mutators (SetClientRandom, SetSNI, CipherSuites drop/append, SessionId pattern/empty, Extensions append/remove/edit, a second BuildHandshakeState) applied between BuildHandshakeState and Handshake x server {plain, HRR-forcing} x {fresh connection, PSK parrot resuming a cached TLS 1.3 session}: (1) first ClientHello on the wire == Hello.Raw read at the first write, (2) the last edit of each field is visible to the strict parser, (3) after Handshake Hello.Raw == the last ClientHello sent. distinct = (client, edit sequence, server, hellos sent)"
+			c.Rule = "every non-Golang ID, randomized seeds and custom specs (+ fingerprinted copies in thorough) x every sequence of <=2 (3) documented mutators (SetClientRandom, SetSNI, CipherSuites drop/append, SessionId pattern/empty, Extensions append/remove/edit (ALPN, server_name and signature_algorithms objects edited directly), a second BuildHandshakeState) applied between BuildHandshakeState and Handshake x server {plain, HRR-forcing} x {fresh connection, PSK parrot resuming a cached TLS 1.3 session}: (1) first ClientHello on the wire == Hello.Raw read at the first write, (2) the last edit of each field is visible to the strict parser, (3) after Handshake Hello.Raw == the last ClientHello sent. distinct = (client, edit sequence, server, hellos sent)"
 			c.Assumptions = []string{"Hello.Raw 'as rebuilt at handshake start' is read by the transport's first-write callback on the handshaking goroutine"}
 			runAll(c, c01Scenarios(thorough), 0)
 			c.Gate(c.Total.Counters["hrr_completed"] > 100, "non-vacuity: %d completed HRR handshakes", c.Total.Counters["hrr_completed"])
